@@ -97,6 +97,9 @@ def gen(ctx):
                 seq[-1]["hist"] = [[4 * x for x in st]]
                 seq[-1]["rule"] = rule
         yield dict(kind="seq", seq=seq, shared_rule=1)
+    for _ in range(ctx.n(40, 400)):
+        # +0.0 / -0.0 compare equal but are different contents: a pure rule may look at the sign bit
+        yield dict(kind="szero", N=rng.randint(3, 8), T=rng.randint(3, 7), memo=rng.choice(MEMOS), dyn=int(rng.random() < 0.3), seed=rng.randrange(10 ** 6))
     for _ in range(ctx.n(40, 300)):
         c = rand_case(rng)
         c["memo"] = rng.choice(["bad:Recursive", "bad:None", "bad:2", "bad:x", "bad:recursive ", "bad:memo"])
@@ -107,10 +110,12 @@ def gen(ctx):
 
 
 def line(c):
-    return None if c["kind"] == "seq" else ev1.line(c)
+    return None if c["kind"] in ("seq", "szero") else ev1.line(c)
 
 
 def impl(c):
+    if c["kind"] == "szero":
+        return "n/a"
     if c["kind"] == "seq":
         if c.get("shared_rule"):
             from .. import fmt
@@ -172,7 +177,26 @@ def _one(x):
     return None
 
 
+def szero_run(c, memo):
+    import cellpylib as cpl
+    rng = np.random.RandomState(c["seed"])
+    vals = np.array([0.0, -0.0, 2.0, -2.0, 3.5])
+    ca = vals[rng.randint(0, 5, size=(1, c["N"]))]
+
+    def rule(n, cc, t):          # depends only on the neighbourhood contents (bitwise): centre, and the sign bit of zeros
+        x = float(n[len(n) // 2])
+        if x != 0.0:
+            return x if np.signbit(n[0]) == np.signbit(n[-1]) else -x
+        return -0.0 if not np.signbit(x) else 7.0
+    ts = (lambda a, t: t < c["T"]) if c["dyn"] else c["T"]
+    return cpl.evolve(ca, timesteps=ts, apply_rule=rule, r=1, memoize=memo)
+
+
 def oracle(c):
+    if c["kind"] == "szero":
+        a = szero_run(c, ev1.memo_value(c["memo"]))
+        b = szero_run(c, False)
+        return None if a.tobytes() == b.tobytes() else "memoize=%r differs (bitwise) from memoize=False on a float automaton with signed zeros" % (ev1.memo_value(c["memo"]),)
     if c["kind"] == "seq":
         # run the whole sequence back to back, then compare each with its isolated unmemoized run
         if c.get("shared_rule"):
@@ -190,7 +214,7 @@ def oracle(c):
 
 
 def nontrivial(c, ans):
-    if c["kind"] == "seq":
+    if c["kind"] in ("seq", "szero"):
         return True
     if not ans.startswith("ok") or ev1.mode_of(c["memo"]) == "bad":
         return False
